@@ -15,10 +15,13 @@ REPO = os.environ.get("CJET_REPO", "/repo")
 CACHE = os.path.join(VERIF, ".cache")
 IR2FACTS = os.path.join(VERIF, "bin", "ir2facts")
 
+FRONTEND_VERSION = "4"   # bump when the exporter, the IR pipeline or what is stored next to the facts changes
+
 CONFIGS = {
     "default": [],
+    # (the message size is deliberately not a multiple of 8: sizes rounded for alignment then differ from the configured one)
     "localadd": ["-DCONFIG_ALLOW_ADD_ONLY_FROM_LOCALHOST=true",
-                 "-DCONFIG_ELEMENT_TABLE_ORDER=3", "-DCONFIG_ROUTING_TABLE_ORDER=2"],
+                 "-DCONFIG_ELEMENT_TABLE_ORDER=3", "-DCONFIG_ROUTING_TABLE_ORDER=2", "-DCONFIG_MAX_MESSAGE_SIZE=510"],
     # thorough tier only
     "small": ["-DCONFIG_ELEMENT_TABLE_ORDER=2", "-DCONFIG_ROUTING_TABLE_ORDER=1",
               "-DCONFIG_MAX_MESSAGE_SIZE=64", "-DCONFIG_MAX_WRITE_BUFFER_SIZE=256",
@@ -157,7 +160,10 @@ def build_facts(config="default", repo=None, keep=False, verbose=False):
     repo = repo or REPO
     th = tree_hash(repo)
     cdir = os.path.join(CACHE, th)
-    out = os.path.join(cdir, config + ".json")
+    # the cache entry is named after the configuration's definition too (and the front end's version): editing CONFIGS or the
+    # exporter must not be answered from facts built before
+    tag = hashlib.sha256((FRONTEND_VERSION + "|" + " ".join(CONFIGS[config])).encode()).hexdigest()[:8]
+    out = os.path.join(cdir, "%s-%s.json" % (config, tag))
     if os.path.exists(out):
         return out
     if not os.path.exists(IR2FACTS):
@@ -204,6 +210,17 @@ def build_facts(config="default", repo=None, keep=False, verbose=False):
         with ThreadPoolExecutor(max_workers=16) as ex:
             mres = list(ex.map(macros, jobs))
         macro_tab = {os.path.basename(e["file"]): m for e, m in zip(units, mres)}
+        # the configuration enumerators of the generated headers (enum {CONFIG_X = n};): clang emits debug info only for the
+        # enumerations a unit uses as a type, so a configuration value can vanish from the DI although it shapes the code
+        import glob, re
+        cfgen = {}
+        for h in glob.glob(os.path.join(b, "**", "generated", "*.h"), recursive=True):
+            try:
+                for m_ in re.finditer(r"enum\s*\{\s*(\w+)\s*=\s*(-?\d+)\s*\}", open(h).read()):
+                    cfgen[m_.group(1)] = int(m_.group(2))
+            except OSError:
+                pass
+        macro_tab["__config__"] = cfgen
         linked = os.path.join(scratch, "all.bc")
         rc, log = _run(["llvm-link-14", "-o", linked] + [j[1] for j in jobs])
         if rc != 0:
